@@ -1,4 +1,5 @@
 import GB.C05.Witness
+import GB.C05.PipelineProofs
 /-
   C05 — reflection resolution reproduces the target's contract for any conformant server.
   Property theorems only; helper lemmas live in Proofs.lean, vocabulary in Spec.lean.
@@ -378,4 +379,99 @@ theorem C05_unfocused_needs_more_rounds :
     (∀ n, Reach drip.files (rootNames cfg0 drip) n → Within drip.files (rootNames cfg0 drip) cfg0.limit n) ∧
     (runStream (dedupFiles []) cfg0 dripPol idSched).2.toOption.isNone = true :=
   ⟨drip_wf, drip_conformant, wit_fair, drip_depth, by decide⟩
+
+/-! ## reflection/client.go: the pipelined batch refines the sequential conversation
+
+`Pipe.step` (Pipeline.lean) is `execFileDescriptorRequests` — requester goroutine, receiver goroutine,
+semaphore, the two buffered error channels, the cancelling context, `wg.Wait` — followed by
+`client.close()`; nondeterminism is the choice of the next label, so "reachable" = "after any
+interleaving".  The target answers the pipelined requests in FIFO order, each answer computed from the
+whole conversation so far (`Pipe.idealAnswers_spec`). -/
+
+/-- For EVERY interleaving: once the function has decided its result, that result is the sequential
+    FIFO conversation's (`execBatch`, what the resolver model uses): returned files are exactly the
+    sequential files — even if timeouts or stream errors occurred somewhere — and, unless a stream-level
+    fault (timeout, status, EOF) happened before the function's own `cancel()`, a returned error is exactly
+    the sequential error. -/
+theorem C05_pipeline_refines_fifo (closeFixed : Bool) (pol : Policy) (h0 : History) (reqs : List Request)
+    (s : Pipe.PState)
+    (hr : LTS.Reachable (Pipe.step closeFixed (Pipe.idealAnswers pol h0 reqs)) (Pipe.init reqs.length) s) :
+    (∀ l, s.result = some (.ok l) → (execBatch pol h0 reqs).2 = .ok l) ∧
+    (∀ e, s.result = some (.error e) → s.streamFault = true ∨ (execBatch pol h0 reqs).2 = .error e) ∧
+    (∀ r, s.streamFault = false → s.result = some r → r = (execBatch pol h0 reqs).2) := by
+  have hlen := Pipe.idealAnswers_length pol reqs h0
+  rw [← hlen] at hr
+  have hi := Pipe.pinv_reachable closeFixed _ s hr
+  rw [Pipe.execBatch_eq_collect]
+  refine ⟨fun l h => (hi.result_ok l h).symm ▸ rfl, fun e h => ?_, fun r hf h => ?_⟩
+  · rcases hi.result_err e h with a | a
+    · exact Or.inl a
+    · exact Or.inr a
+  · cases r with
+    | ok l => exact (hi.result_ok l h).symm
+    | error e =>
+      rcases hi.result_err e h with a | a
+      · rw [hf] at a; exact absurd a (by simp)
+      · exact a.symm
+
+/-- Semaphore invariant: in every interleaving the receiver is inside `Recv` for response `i` only
+    after request `i` has been written to the stream, and the tokens add up. -/
+theorem C05_pipeline_semaphore (closeFixed : Bool) (A : List Answer) (s : Pipe.PState)
+    (hr : LTS.Reachable (Pipe.step closeFixed A) (Pipe.init A.length) s) :
+    (∀ i, s.vpc = .recv i → i < s.wire ∧ i < A.length) ∧ s.sem + s.taken = s.sig ∧ s.sig ≤ s.wire ∧
+    s.served ≤ s.wire ∧ s.wire ≤ A.length := by
+  have hi := Pipe.pinv_reachable closeFixed A s hr
+  refine ⟨fun i hv => ?_, hi.tokens, hi.sig_le, hi.served_le, hi.wire_le⟩
+  have := hi.v_recv i hv
+  have h1 := hi.tokens
+  have h2 := hi.sig_le
+  exact ⟨by omega, this.2.1⟩
+
+/-- No leak: whenever `execFileDescriptorRequests` has returned (and all through `close()`), both
+    goroutines have exited; while it waits in `wg.Wait` its context is cancelled, and a cancelled
+    context unblocks every blocking point of either goroutine (the select on the semaphore, a `Recv`,
+    a `Send`), so an error on either side stops the other. -/
+theorem C05_pipeline_no_leak (closeFixed : Bool) (A : List Answer) (s : Pipe.PState)
+    (hr : LTS.Reachable (Pipe.step closeFixed A) (Pipe.init A.length) s) :
+    (s.mpc ≠ .joining → (∀ k, s.mpc ≠ .reading k) → s.rpc = .done ∧ s.vpc = .done) ∧
+    (s.mpc = .joining → s.cancelled = true) ∧
+    (s.cancelled = true →
+      (∀ i, s.vpc = .wait i → i < A.length → (Pipe.step closeFixed A s .rcvCancelled).isSome = true) ∧
+      (∀ i, s.vpc = .recv i → (Pipe.step closeFixed A s (.rcvFault ⟨Pipe.codeCanceled⟩ true)).isSome = true) ∧
+      (∀ i, s.rpc = .send i → i < A.length →
+        (Pipe.step closeFixed A s (.reqSendFault ⟨Pipe.codeCanceled⟩)).isSome = true)) ∧
+    (s.mpc = .joining → s.rpc = .done → s.vpc = .done → (Pipe.step closeFixed A s .mainJoin).isSome = true) := by
+  have hi := Pipe.pinv_reachable closeFixed A s hr
+  refine ⟨hi.joined, hi.joining, fun hc => ⟨?_, ?_, ?_⟩, ?_⟩
+  · intro i hv hlt; simp [Pipe.step, hv, hlt, hc]
+  · intro i hv; simp [Pipe.step, hv]
+  · intro i hv hlt; simp [Pipe.step, hv, hlt]
+  · intro a b c; simp [Pipe.step, a, b, c]
+
+/-- client.close() after the fix: in no interleaving is a `Recv` issued on a stream that still has a
+    `Recv` in flight — neither the receiver's nor one left running in the background by a call whose
+    context ended (`AdaptedClientStream.withCtx`). -/
+theorem C05_close_no_concurrent_recv (A : List Answer) (s : Pipe.PState)
+    (hr : LTS.Reachable (Pipe.step true A) (Pipe.init A.length) s) : Pipe.reads s ≤ 1 :=
+  Pipe.reads_le_one A s (Pipe.pinv_reachable true A s hr)
+
+/-- … and before the fix it was: one request, its `Recv` times out (the read stays behind), the function
+    returns the error, close() reads again — two reads on one stream. -/
+theorem C05_close_unfixed_reads_twice :
+    (LTS.run (Pipe.step false [.files []]) (Pipe.init 1)
+      [.reqSend, .reqSignal, .rcvTake, .rcvFault ⟨4⟩ true, .mainReadRecv, .reqFinish, .mainJoin,
+       .closeSend, .closeRecvCall]).map Pipe.reads = some 2 := by
+  decide
+
+/-- The same schedule is impossible after the fix (the graceful `Recv` is skipped), and the fault-free
+    schedule still closes gracefully. -/
+theorem C05_close_fixed_witness :
+    (LTS.run (Pipe.step true [.files []]) (Pipe.init 1)
+      [.reqSend, .reqSignal, .rcvTake, .rcvFault ⟨4⟩ true, .mainReadRecv, .reqFinish, .mainJoin,
+       .closeSend, .closeRecvCall]).isNone = true ∧
+    (LTS.run (Pipe.step true [.files []]) (Pipe.init 1)
+      [.reqSend, .serve, .reqSignal, .reqFinish, .rcvTake, .rcvRecv, .rcvFinish, .mainReadRecv, .mainReadSend,
+       .mainJoin, .closeSend, .closeRecvCall, .closeRecvRet, .closeClose]).map (fun s => (s.result.map Except.toOption, s.mpc)) =
+      some (some (some []), .closed) := by
+  decide
 
